@@ -21,6 +21,8 @@ pub fn unify_link(
     total: usize,
 ) -> Unified {
     if let Some(constraint) = &constraints.pop_constr() {
+        #[cfg(mamba_verif)]
+        crate::verif_hooks::count("unify_steps", 1);
         let (left, right) = (&constraint.parent, &constraint.child);
 
         let pos = format!("{}={} ", left.pos, right.pos);
